@@ -448,6 +448,8 @@ class Ref:
     def _e_newtype(self, t, v, ctx):
         return self.enc(t[2], v, ctx)
 
+    _e_talias = _e_newtype
+
     def _e_ann(self, t, v, ctx):
         return self.enc(t[1], v, ctx)
 
@@ -842,6 +844,8 @@ class Ref:
     def _d_newtype(self, t, d, ctx):
         return self.dec(t[2], d, ctx)
 
+    _d_talias = _d_newtype
+
     def _d_ann(self, t, d, ctx):
         return self.dec(t[1], d, ctx)
 
@@ -1086,6 +1090,8 @@ class Ref:
 
     def _c_newtype(self, t, v):
         return self.conforms(t[2], v)
+
+    _c_talias = _c_newtype
 
     def _c_ann(self, t, v):
         return self.conforms(t[1], v)
